@@ -131,8 +131,12 @@ def execute(case):
             w.advance_until(
                 lambda: w.arbiter._exclusive_running_command is None and
                 w.loop.is_idle(), w.loop.time() + 600.0)
-            t_end = w.loop.time()
-            first = [r for r in k.spawn_log if r["t"] <= t_end + EPS]
+            # (the window ends with the kernel call count at that moment: a
+            # periodic check firing at the very instant the sequence ends
+            # is not part of it)
+            nc_end = k.ncalls
+            first = [r for r in k.spawn_log if r["ncall"] <= nc_end and
+                     r.get("excl") != 'manage_watchers']
             w.drain()
         else:
             h.start()
@@ -196,7 +200,7 @@ def execute(case):
                 if case.get("periodic"):
                     w.advance_until(lambda: r.answered,
                                     w.loop.time() + 600.0)
-                t_end = w.loop.time() if case.get("periodic") else None
+                t_end = k.ncalls if case.get("periodic") else None
                 w.drain()
                 if (r.reply() or {}).get("status") != "ok":
                     classes.add('sequence-refused')
@@ -207,7 +211,8 @@ def execute(case):
                 analyse('reloadconfig-add',
                         [r_ for r_ in k.spawn_log[n0:]
                          if r_["owner"] in added and
-                         (t_end is None or r_["t"] <= t_end + EPS)],
+                         r_.get("excl") != 'manage_watchers' and
+                         (t_end is None or r_["ncall"] <= t_end)],
                         wmap, added, gwarm, viols)
                 continue
             if sq.get("set_warmup"):
@@ -259,7 +264,7 @@ def execute(case):
                           props)
             if case.get("periodic"):
                 w.advance_until(lambda: r.answered, w.loop.time() + 600.0)
-            t_end = w.loop.time() if case.get("periodic") else None
+            t_end = k.ncalls if case.get("periodic") else None
             w.drain()
             k.disarm()
             rep = r.reply() or {}
@@ -274,7 +279,10 @@ def execute(case):
                 classes.add('multi-watcher-sequence')
             analyse('%s%s' % (kind, '-glob' if sq.get("glob") else '-all'),
                     [r_ for r_ in k.spawn_log[n0:]
-                     if (t_end is None or r_["t"] <= t_end + EPS) and
+                     # (a periodic check that slips in between the end of
+                     # the operation and its reply is not part of it)
+                     if r_.get("excl") != 'manage_watchers' and
+                     (t_end is None or r_["ncall"] <= t_end) and
                      (stopped0 is None or r_["owner"] in stopped0)],
                     wmap, matched, gwarm, viols)
         if w.blocked:
